@@ -75,12 +75,15 @@ StepAR(e) ==
         ELSE arv' = na /\ l' = l + 1 /\ Keep /\ UNCHANGED <<pl, bav, bsbuf, bswcur, bsrcur>>
 
 StepBS(e) ==
-    CASE e.op = "new" ->
-            IF e.bytes # [i \in 1 .. BS!Bytes |-> 0] \/ e.wcur # 0 \/ e.rcur # 0 THEN Bad("a new write stream does not clear its buffer", <<>>, e)
-            ELSE bsbuf' = [i \in 0 .. (BS!Bytes - 1) |-> 0] /\ bswcur' = 0 /\ bsrcur' = 0 /\ l' = l + 1 /\ Keep /\ UNCHANGED <<pl, bav, arv>>
-      [] e.op = "newat" ->     \* a write stream opened at start cursor e.a: the buffer is cleared, both cursors start there
-            IF e.bytes # [i \in 1 .. BS!Bytes |-> 0] \/ e.wcur # e.a \/ e.rcur # e.a THEN Bad("a write stream opened at a start cursor does not start from a cleared buffer at that cursor", <<>>, e)
-            ELSE bsbuf' = [i \in 0 .. (BS!Bytes - 1) |-> 0] /\ bswcur' = e.a /\ bsrcur' = e.a /\ l' = l + 1 /\ Keep /\ UNCHANGED <<pl, bav, arv>>
+    CASE e.op \in {"new", "newat"} ->
+            \* a write stream opened at start cursor c (0 for "new") clears its buffer; both cursors start at c.
+            \* (the model starts afresh even when the implementation did not, so that the rest of the trace stays comparable)
+            LET c  == IF e.op = "new" THEN 0 ELSE e.a
+                ok == e.bytes = [i \in 1 .. BS!Bytes |-> 0] /\ e.wcur = c /\ e.rcur = c
+            IN  /\ bsbuf' = [i \in 0 .. (BS!Bytes - 1) |-> 0] /\ bswcur' = c /\ bsrcur' = c /\ l' = l + 1
+                /\ rej' = IF ok \/ Len(rej) >= 5 THEN rej
+                          ELSE Append(rej, <<l, "a new write stream does not start from a cleared buffer at its start cursor", <<>>, e>>)
+                /\ UNCHANGED <<done, pl, bav, arv, d1, d2, d3, d4>>
       [] e.op = "write" ->
             LET r == BS!WriteLoop(bsbuf, bswcur, ToBits(e.b, e.d, e.a)) IN
             IF e.bytes # BufSeq(r.buf) \/ e.wcur # r.cur \/ r.cur # bswcur + e.a THEN Bad("write<W> differs from the model", [bytes |-> BufSeq(r.buf), wcur |-> r.cur], e)
